@@ -1,10 +1,11 @@
-\* C16 / CallInject.tla -- (E, quick tier: arities 0, 3, 6) the code's step order (debug assertions on, as the harness is built): every terminal state
+\* C16 / CallInject.tla -- (E, quick tier: arities 0 and 6, three breakpoint sets) the code's step order (debug assertions on, as the harness is built): every terminal state
 \* is printed with the post-conditions it breaks (predictions; the binding decides)
 CONSTANTS
     Variant = "aswritten"
     DebugAsserts = TRUE
     FailKinds = {"err", "death", "stop"}
-    Arities = {0, 3, 6}
+    Arities = {0, 6}
+    BpChoice = "some"
     Emit = "term"
 SPECIFICATION Spec
 INVARIANTS HappyPathOk TypeOK
